@@ -95,7 +95,7 @@ def run_mutant(args: tuple[str, dict, str]) -> dict:
 
 SEEDED = Path(__file__).resolve().parent.parent / "seeded"
 # seeds the static rules do not reach (value-level change, no structural clause): reported, not failed
-DOCUMENTED_MISSES = {"C06b-gyear-negative-offset-dispatch"}
+DOCUMENTED_MISSES: set[str] = set()  # every filed seed is detected by the check of its own property (C06b-gyear-negative-offset-dispatch was the last miss: C06.R9)
 
 
 def load_seeds(pid: str) -> list[dict]:
